@@ -4,6 +4,7 @@ import itertools
 
 from sa.loader import AnalysisError, norm, walk_local
 from sa.cfg import cfg_of
+from sa.pathsum import summaries
 from sa import guards
 from .common import analysis, names_in, true_facts, truthy_texts
 from .c09 import label_slice
@@ -53,13 +54,18 @@ def run(ctx):
     # ---- R2 raise iff False ---------------------------------------------------------------------
     ctx.rule("C10.R2", "_validate: single return of `result`, dominated by `raise_errors and result is False -> raise ValidationError`; container validators and-combine all element verdicts; validate_many re-raises", floor=5)
     cfg = cfg_of(vf)
-    rets = [n for n in walk_local(vf.node) if isinstance(n, ast.Return)]
-    tests = [t for t in cfg.nodes if t.kind == "test" and norm(t.ast) in ("raise_errors and result is False", "result is False and raise_errors")]
-    ok = len(rets) == 1 and norm(rets[0].value) == "result" and len(tests) == 1 and cfg.dominates(tests[0], cfg.node_of(rets[0]))
-    if ok:
-        tsucc = [m for (m, lab) in tests[0].succ if lab == "true"]
-        ok = all(isinstance(m.ast, ast.Raise) and "ValidationError" in norm(m.ast.exc) for m in tsucc)
-    ctx.check("C10.R2", "_validate: raise ValidationError exactly when asked and the result is False, else return the result", ok, vf.where(), f"_validate: returns {[norm(r.value) for r in rets]}, tests {[norm(t.ast) for t in tests]}", "validate must raise in precisely the False cases when raise_errors is set, and return the verdict otherwise")
+    RE = vf.pos_params[4]
+    D = vf.pos_params[0]
+    sums = summaries(cfg)
+    rets_s = [s for s in sums if s.kind == "return"]
+    raises_s = [s for s in sums if s.kind == "raise" and s.text.startswith("ValidationError(")]
+    bad_ret = [s for s in rets_s if not (f"not {RE} or {s.text} is not False" in s.facts or (s.text == "False" and f"not {RE}" in s.facts) or s.text == "True")]
+    bad_raise = [s for s in raises_s if RE not in s.facts]
+    if not rets_s:
+        ctx.unrecognised("C10.R2", "_validate", vf.where(), "no return path found")
+    else:
+        what = "_validate: raise ValidationError exactly when asked and the result is False, else return the result"
+        ctx.check("C10.R2", what, not bad_ret and not bad_raise and bool(raises_s), vf.where(bad_ret[0].node) if bad_ret else vf.where(), f"_validate: path returns `{bad_ret[0].text[:60]}` without the raise-iff-False test" if bad_ret else (f"_validate: raises under {sorted(bad_raise[0].facts)[:3]}" if bad_raise else ""), "validate must raise in precisely the False cases when raise_errors is set, and return the verdict otherwise")
     for kind in ("array", "map", "record"):
         f = V.funcs(kind)[0]
         calls = [n for n in walk_local(f.node) if isinstance(n, ast.Call) and isinstance(n.func, ast.Name) and n.func.id == "_validate"]
@@ -75,7 +81,11 @@ def run(ctx):
     cfg = cfg_of(vm)
     rets = [n for n in walk_local(vm.node) if isinstance(n, ast.Return)]
     raises = [n for n in walk_local(vm.node) if isinstance(n, ast.Raise) and n.exc is not None and "ValidationError" in norm(n.exc)]
-    ok = len(rets) == 1 and norm(rets[0].value) == "all(results)" and len(raises) == 1
+    vcalls = [n for n in ast.walk(vm.node) if isinstance(n, ast.Call) and isinstance(n.func, ast.Name) and n.func.id == "_validate"]
+    verdict = conjunction_of_verdicts(vm, cfg, rets, vcalls)
+    if verdict[0] is None:
+        ctx.unrecognised("C10.R2", "validate_many", vm.where(), f"result `{[norm(r.value) for r in rets]}`: {verdict[1]}")
+    ok = verdict[0] is True and len(raises) == 1
     if ok:
         facts = true_facts(cfg, cfg.node_of(raises[0]))
         rfacts = true_facts(cfg, cfg.node_of(rets[0]))
@@ -130,8 +140,8 @@ def run(ctx):
             else:
                 ctx.check("C10.R4", inst, rejected == want, wrf.where(miss[0]), f"write_record: strict={s} sad={sa_} default={d} nullable={n_} -> {'rejected' if rejected else 'accepted'}", f"a record lacking this field must be {'rejected' if want else 'accepted'} in this mode")
     # validator side
-    tests = [n for n in walk_local(vf.node) if isinstance(n, ast.If) and norm(n.test) in ("datum is NoValue and options.get('strict')", "options.get('strict') and datum is NoValue")]
-    ok = len(tests) == 1 and any(isinstance(s, ast.Assign) and norm(s) == "result = False" for s in tests[0].body)
+    strict_paths = [s for s in summaries(cfg_of(vf)) if {f"{vf.pos_params[0]} is NoValue", f"{vf.pos_params[5]}.get('strict')"} <= s.facts]
+    ok = bool(strict_paths) and all((s.kind == "return" and s.text == "False") or (s.kind == "raise" and s.text.startswith("ValidationError(")) for s in strict_paths)
     ctx.check("C10.R4", "_validate: a missing value in strict mode is False, whatever the field's type", ok, vf.where(), "_validate: strict missing-value arm", "in strict mode a record lacking a field without default must be rejected even when the field accepts null")
     vr = V.funcs("record")[0]
     passed = [c for c in ast.walk(vr.node) if isinstance(c, ast.Call) and isinstance(c.func, ast.Name) and c.func.id == "_validate"]
@@ -188,6 +198,84 @@ def expected_writer_cell(s, sa_, d, n_):
     if not d and not n_:
         return True
     return False
+
+
+def conjunction_of_verdicts(f, cfg, rets, vcalls):
+    """(True | False | None, why): the single returned value is the conjunction of every verdict in `vcalls`.
+    Accepted idioms: all(L) with every verdict appended to the fresh list L; a flag initialised True and only
+    ever set to False under `not verdict` (or and-ed with the verdict)."""
+    if len(rets) != 1 or rets[0].value is None or not vcalls:
+        return None, "expected one return and at least one verdict"
+    R = rets[0].value
+    pm = {}
+    for n in ast.walk(f.node):
+        for c in ast.iter_child_nodes(n):
+            pm[id(c)] = n
+
+    def verdict_names(call):
+        """names holding the verdict of this call (assigned directly from it)"""
+        par = pm.get(id(call))
+        if isinstance(par, ast.Assign) and par.value is call and len(par.targets) == 1 and isinstance(par.targets[0], ast.Name):
+            return {par.targets[0].id}
+        return set()
+
+    if isinstance(R, ast.Call) and isinstance(R.func, ast.Name) and R.func.id in ("all", "any") and len(R.args) == 1 and isinstance(R.args[0], ast.Name):
+        if R.func.id == "any":
+            return False, "any() of the verdicts: one valid record makes the whole batch valid"
+        L = R.args[0].id
+        stores = [n for n in walk_local(f.node) if isinstance(n, ast.Assign) and any(isinstance(t, ast.Name) and t.id == L for t in n.targets)]
+        if len(stores) != 1 or not (isinstance(stores[0].value, ast.List) and not stores[0].value.elts):
+            return None, f"{L} is not a fresh list assigned once"
+        for n in walk_local(f.node):
+            if isinstance(n, ast.Call) and isinstance(n.func, ast.Attribute) and isinstance(n.func.value, ast.Name) and n.func.value.id == L and n.func.attr not in ("append",):
+                return False, f"{L}.{n.func.attr}() changes the collected verdicts"
+            if isinstance(n, (ast.Delete, ast.AugAssign)) and L in names_in(n):
+                return False, f"{L} is modified other than by append"
+        for c in vcalls:
+            par = pm.get(id(c))
+            appended = isinstance(par, ast.Call) and isinstance(par.func, ast.Attribute) and par.func.attr == "append" and norm(par.func.value) == L
+            if not appended:
+                vs = verdict_names(c)
+                appended = any(isinstance(n, ast.Call) and isinstance(n.func, ast.Attribute) and n.func.attr == "append" and norm(n.func.value) == L and len(n.args) == 1 and isinstance(n.args[0], ast.Name) and n.args[0].id in vs for n in walk_local(f.node))
+            if not appended:
+                return False, "a verdict is not collected"
+        return True, "all() of the collected verdicts"
+    if isinstance(R, ast.Name):
+        F = R.id
+        stores = [n for n in walk_local(f.node) if isinstance(n, (ast.Assign, ast.AugAssign)) and any(isinstance(t, ast.Name) and t.id == F for t in (n.targets if isinstance(n, ast.Assign) else [n.target]))]
+        if not stores:
+            return None, f"{F} is never assigned"
+        vnames = set()
+        for c in vcalls:
+            vs = verdict_names(c)
+            if not vs:
+                return None, "a verdict is not bound to a name"
+            vnames |= vs
+        init = [s for s in stores if isinstance(s, ast.Assign) and isinstance(s.value, ast.Constant) and s.value.value is True]
+        if len(init) != 1 or any(id(init[0]) in {id(x) for l in walk_local(f.node) if isinstance(l, (ast.For, ast.While)) for x in ast.walk(l)} for _ in [0]):
+            return None, f"{F} is not initialised to True once outside the loop"
+        used = set()
+        for s in stores:
+            if s is init[0]:
+                continue
+            if isinstance(s, ast.Assign) and isinstance(s.value, ast.Constant) and s.value.value is False:
+                facts = true_facts(cfg, cfg.node_of(s))
+                hit = {v for v in vnames if f"not {v}" in facts}
+                if not hit:
+                    return False, f"{F} = False is not guarded by a failed verdict"
+                used |= hit
+            elif isinstance(s, ast.Assign) and isinstance(s.value, ast.BoolOp) and isinstance(s.value.op, ast.And) and F in names_in(s.value) and names_in(s.value) & vnames:
+                used |= names_in(s.value) & vnames
+            elif isinstance(s, ast.AugAssign) and isinstance(s.op, ast.BitAnd) and names_in(s.value) & vnames:
+                used |= names_in(s.value) & vnames
+            else:
+                return False, f"`{norm(s)}` can make the result forget a failed verdict"
+        if used != vnames:
+            return False, "a verdict does not reach the result"
+        return True, "flag cleared on every failed verdict"
+    if isinstance(R, ast.Constant):
+        return False, "constant result"
+    return None, "unknown way of combining the verdicts"
 
 
 def conj_discipline(a, f, call):
